@@ -34,6 +34,7 @@ func init() {
 			"(15 mode strings; initial sizes 0,1,4095,4096,4097,8192,10000, small, absent; content with NUL, CR, CRLF, 0xff, lines around 4096 bytes, numerals), " +
 			"obeying ISO C 7.19.5.3 (seek/flush between read and write); every result compared with a byte-slice+cursor model, file bytes compared via os.ReadFile " +
 			"whenever no handle has unflushed writes, a fresh handle's reads (\"*a\", chunked read(n), io.lines) compared at close points; " +
+			"op itnext: an iterator taken from f:lines() is called one step at a time (= read(\"*l\") at the handle's cursor), also after the handle was closed (must raise); " +
 			"non-trivial = >=8 operations executed, >=3 distinct operation kinds, >=1 byte of read data compared and >=1 on-disk comparison, history not cut short by a divergence; distinct by case content",
 		Assumptions: []string{
 			"the byte-slice/cursor model of Lua 5.1 io handles (manual 5.7 + ISO C stdio) is correct",
